@@ -49,7 +49,19 @@ def n(e, keep_casts=False):
     if k == "ovf":
         return ("ovf", e[1], n(e[2], keep_casts), n(e[3], keep_casts))
     if k == "un":
-        return ("un", e[1], n(e[2], keep_casts))
+        inner = n(e[2], keep_casts)
+        if e[1] == "Not" and inner[0] == "bin" and inner[1] in ("Lt", "Le", "Eq", "Ne"):
+            # logical negation of a comparison: !(a < b) is b <= a, !(a <= b) is b < a, !(a == b) is a != b
+            op, a, b = inner[1], inner[2], inner[3]
+            if op == "Lt":
+                return ("bin", "Le", b, a)
+            if op == "Le":
+                return ("bin", "Lt", b, a)
+            flipped = "Ne" if op == "Eq" else "Eq"
+            return ("bin", flipped, a, b)
+        if e[1] == "Not" and inner[0] == "un" and inner[1] == "Not":
+            return inner[2]
+        return ("un", e[1], inner)
     if k == "ref":
         inner = n(e[-1], keep_casts)
         if inner[0] == "deref":
